@@ -26,7 +26,7 @@ RULE = (
 ASSUMPTIONS = ["dense reference; forced measurement settings so that compile is a function",
                "compile(circuit, initial_state=s) aliasing s is outside the statement and not asserted"]
 REQUIRED_CLASSES = {"interleave": ["rewrite:group", "rewrite:unwrap", "rewrite:rmid", "rewrite:copy", "rewrite:assign_empty",
-                                   "call:assign_noise", "call:mc", "call:solve", "call:compile", "call:metric", "reuse_after_noisy_copy"]}
+                                   "call:assign_noise", "call:mc", "call:solve", "call:compile", "call:metric", "reuse_after_noisy_copy", "rewrite:noisy_copy"]}
 
 
 def compilers():
@@ -211,6 +211,26 @@ def check(case, sub="interleave"):
                 raise Violation(sub, "not-a-copy", "assign_noise", icls, "assign_noise returned the circuit itself")
             derived = True
             cl.add("call:assign_noise")
+        elif a == "N:rewrite":
+            # a noisy copy, rewritten, must still compile to the noiseless state when noise simulation is off
+            m = build_map(step[1])
+            N = guarded(sub, icls, C.assign_noise, m)
+            for rw in step[2]:
+                if rw == "group":
+                    guarded(sub, icls, N.group_one_qubit_gates)
+                elif rw == "unwrap":
+                    guarded(sub, icls, N.unwrap_nodes)
+                elif rw == "rmid":
+                    guarded(sub, icls, N.remove_identity)
+                elif rw == "copy":
+                    N = guarded(sub, icls, N.copy)
+                for det in (0, 1):
+                    s_ = compile_state(sub, icls, N, "stab", det, False)
+                    if not state_matches(s_, "stab", refs[det], n):
+                        raise Violation(sub, "rewrite-changed-state", "N:" + rw, icls,
+                                        "noisy copy after %s compiles (noise simulation off) to another state (setting %s)" % (rw, det))
+            derived = True
+            cl.add("rewrite:noisy_copy")
         elif a == "C:mc":
             # the Monte-Carlo noise map knows the register classes e, p, ee, ep only (the photonic setting)
             if any(len(gc.qregs(d)) == 2 and (d[1] + d[3]) not in ("ee", "ep") for d in desc["ops"]):
@@ -276,6 +296,8 @@ def strat(tier):
         st.tuples(st.just("C:assign_noise"), MAPSPEC).map(list),
         st.tuples(st.just("C:assign_noise"), MAPSPEC).map(list),
         st.tuples(st.just("C:mc"), MAPSPEC).map(list),
+        st.tuples(st.just("N:rewrite"), MAPSPEC, st.lists(st.sampled_from(["group", "unwrap", "rmid", "copy", "group"]), min_size=1, max_size=3)).map(list),
+        st.tuples(st.just("N:rewrite"), MAPSPEC, st.lists(st.sampled_from(["group", "unwrap", "rmid", "copy", "group"]), min_size=1, max_size=3)).map(list),
         st.just(["T:solve"]), st.just(["T:hybrid"]),
     )
     return st.fixed_dictionaries({
